@@ -259,3 +259,11 @@ def c14_r5(ctx):
 @rule('C12', 'R5', 'a count window manager is never dropped while it holds an open group (recycle() only when empty)')
 def c12_r5(ctx):
     recycle_implies_empty(ctx, lambda a: '::count::' in a)
+
+
+@rule('C16', 'R4', 'reorder() starts every iteration from its constructed state (buffer, end flag, remembered watermark)')
+def c16_r4(ctx):
+    """what reorder() remembers of an iteration (buffered elements, the last watermark seen, flags) must not steer the next one:
+    watermarks restart with every iteration, so a remembered one would release or forward elements no watermark of the current
+    iteration covers yet"""
+    restart_invariant(ctx, only=lambda adt: '::reorder::' in adt)
